@@ -24,15 +24,19 @@ TNext ==
                       ELSE IF e.a = "Reply" /\ e.from = m /\ e.mt = "next_node_idx" /\ prev.role = "L" /\ m \in prev.others THEN e.now
                       ELSE IF m \in oth /\ m \notin prev.others /\ e.a # "Init" THEN e.now      \* added as a member just now
                       ELSE heard[m]]
-         heardBefore == {m \in oth : heard[m] > e.now - F}
-         expRole == IF e.a = "Tick" /\ prev.role = "L" /\ ~Maj(1 + Cardinality(heardBefore), nv) THEN "F" ELSE
-                    IF e.a = "Tick" THEN prev.role ELSE e.role
+         \* the member view the decision is taken with: a tick checks before it applies a membership entry (either view is accepted)
+         Exp(V) == IF e.a = "Tick" /\ prev.role = "L" /\ ~Maj(1 + Cardinality({m \in V : heard[m] > e.now - F}), Cardinality(V) + 1) THEN "F" ELSE
+                   IF e.a = "Tick" THEN prev.role ELSE e.role
+         pv == IF prev.others = {} THEN oth ELSE prev.others
+         expRole == IF Exp(pv) = e.role THEN Exp(pv) ELSE Exp(oth)
          heardNow == {m \in oth : heard1[m] > e.now - F}
          implLast == [m \in oth |-> IF m \in DOMAIN e.last THEN e.last[m] ELSE -1]
          hqExp == Maj(1 + Cardinality(oth \cap ToSet(e.up)), nv)
          d == (IF e.a = "Tick" /\ prev.role = "L" /\ expRole # e.role THEN {"role"} ELSE {})
               \cup (IF e.role = "L" /\ \E m \in oth : implLast[m] # heard1[m] THEN {"lastResponseTime"} ELSE {})
-         bad == (IF e.a = "Tick" /\ e.role = "L" /\ prev.role = "L" /\ ~Maj(1 + Cardinality(heardNow), nv) THEN {"C20.StepDownBound"} ELSE {})
+         heardPrev == {m \in pv : heard1[m] > e.now - F}
+         bad == (IF e.a = "Tick" /\ e.role = "L" /\ prev.role = "L" /\ ~Maj(1 + Cardinality(heardNow), nv)
+                    /\ ~Maj(1 + Cardinality(heardPrev), Cardinality(pv) + 1) THEN {"C20.StepDownBound"} ELSE {})
                 \cup (IF e.hq # hqExp THEN {"C20.HasQuorumExact"} ELSE {})
                 \* SUCCESS for a command the leader accepted at observation e.subL: a majority answered after that
                 \cup (IF e.a = "Ack" /\ ~Maj(1 + Cardinality({m \in AllIds : heardL[m] > e.subL}), Cardinality(prev.others \cup oth) + 1)
